@@ -331,14 +331,29 @@ fn case_json(family: &str, uptime0: u64, syms: &[Sym], split: Option<usize>) -> 
         "events": syms.iter().map(|s| s.name()).collect::<Vec<_>>() })
 }
 
-fn run_case(ctx: &mut Ctx, which: Which, family: &str, uptime0: u64, syms: &[Sym], split: Option<usize>) {
-    let msgs = gen_stream(syms, uptime0);
-    let res = match split {
+fn run_case(ctx: &mut Ctx, which: Which, family: &str, uptime0: u64, syms: &[Sym], split: Option<usize>, stride: u32) {
+    let mut msgs = gen_stream(syms, uptime0);
+    // index gaps: the detector schedules its regular table refresh by message index (every 100 000);
+    // a stride lets short sequences cross that boundary. The judge sees positions again.
+    if stride > 1 {
+        msgs.iter_mut().for_each(|m| m.index *= stride);
+    }
+    let mut res = match split {
         None => run_stage(&[&msgs]),
         Some(k) => run_stage(&[&msgs[..k], &msgs[k..]]),
     };
+    if stride > 1 {
+        msgs.iter_mut().for_each(|m| m.index /= stride);
+        if let Ok(r) = res.as_mut() {
+            r.delivered.iter_mut().for_each(|(m, _)| m.index /= stride);
+        }
+    }
     ctx.transitions(syms.len() as u64);
-    let cj = || case_json(family, uptime0, syms, split);
+    let cj = || {
+        let mut j = case_json(family, uptime0, syms, split);
+        j["index_stride"] = json!(stride);
+        j
+    };
     let nt = judge(ctx, which, &msgs, &res, &cj);
     ctx.eval(nt);
     ctx.sample(cj);
@@ -371,9 +386,12 @@ impl Prop for LcProp {
         let sig48 = alphabet(48);
         let uptimes: &[u64] = ctx.tier.pick(&[20_000][..], &[20_000, 500][..]);
         // (1) full depth
-        let maxd = ctx.tier.pick(3, 4);
+        let maxd = ctx.tier.pick(3, 5);
         for &up in uptimes {
             for d in 1..=maxd {
+                if d == 5 && up != 20_000 {
+                    continue; // depth 5 (102 M sequences) for one initial uptime only
+                }
                 ctx.begin_family("full_depth", &format!("depth={d} sigma=40 uptime0={up}ms"));
                 let mut syms = vec![sig40[0]; d];
                 let done = enumr::sequences(d, sig40.len(), |ix| {
@@ -381,7 +399,7 @@ impl Prop for LcProp {
                         for (i, x) in ix.iter().enumerate() {
                             syms[i] = sig40[*x];
                         }
-                        run_case(ctx, which, "full_depth", up, &syms, None);
+                        run_case(ctx, which, "full_depth", up, &syms, None, 1);
                         if ctx.sum.evaluations % 4096 == 0 && ctx.out_of_time() {
                             return false;
                         }
@@ -406,7 +424,7 @@ impl Prop for LcProp {
                     for (i, x) in ix.iter().enumerate() {
                         syms[i] = ra[*x];
                     }
-                    run_case(ctx, which, "resume_chains", 20_000, &syms, None);
+                    run_case(ctx, which, "resume_chains", 20_000, &syms, None, 1);
                     if ctx.sum.evaluations % 4096 == 0 && ctx.out_of_time() {
                         return false;
                     }
@@ -416,6 +434,36 @@ impl Prop for LcProp {
             ctx.end_family(done);
             if !done {
                 return;
+            }
+        }
+        // (1c) index gaps: the same sequences with message indices 100 001 (50 001) apart, so that a regular
+        // refresh of the published table falls after every (every second) directly forwarded message
+        for &(stride, d40, dr) in ctx.tier.pick(&[(100_001u32, 3usize, 5usize), (50_001, 2, 5)][..], &[(100_001u32, 4usize, 7usize), (50_001, 3, 6)][..]) {
+            for (name, sig, maxd) in [("sigma40", &sig40, d40), ("resume", &ra, dr)] {
+                ctx.begin_family("index_gaps", &format!("depth=1..{maxd} alphabet={name}({}) index stride={stride} uptime0=20000ms", sig.len()));
+                let mut done = true;
+                for d in 1..=maxd {
+                    let mut syms = vec![sig[0]; d];
+                    done = enumr::sequences(d, sig.len(), |ix| {
+                        if ctx.mine() {
+                            for (i, x) in ix.iter().enumerate() {
+                                syms[i] = sig[*x];
+                            }
+                            run_case(ctx, which, "index_gaps", 20_000, &syms, None, stride);
+                            if ctx.sum.evaluations % 4096 == 0 && ctx.out_of_time() {
+                                return false;
+                            }
+                        }
+                        true
+                    });
+                    if !done {
+                        break;
+                    }
+                }
+                ctx.end_family(done);
+                if !done {
+                    return;
+                }
             }
         }
         // (3) two-phase (pre-populated table)
@@ -429,7 +477,7 @@ impl Prop for LcProp {
                         for (i, x) in ix.iter().enumerate() {
                             syms[i] = sig40[*x];
                         }
-                        run_case(ctx, which, "two_phase", 20_000, &syms, Some(k));
+                        run_case(ctx, which, "two_phase", 20_000, &syms, Some(k), 1);
                     }
                 }
                 !(ctx.sum.evaluations % 4096 == 0 && ctx.out_of_time())
@@ -451,7 +499,7 @@ impl Prop for LcProp {
                             for (i, x) in ix.iter().enumerate() {
                                 syms[i] = sig48[*x];
                             }
-                            run_case(ctx, which, "deviation_bounded", up, &syms, None);
+                            run_case(ctx, which, "deviation_bounded", up, &syms, None, 1);
                             if ctx.sum.evaluations % 4096 == 0 && ctx.out_of_time() {
                                 return false;
                             }
@@ -478,6 +526,7 @@ impl Prop for LcProp {
         let split = case["split"].as_u64().map(|x| x as usize);
         let fam = case["family"].as_str().unwrap_or("replay").to_string();
         ctx.mine();
-        run_case(ctx, self.0, &fam, up, &syms, split);
+        let stride = case["index_stride"].as_u64().unwrap_or(1) as u32;
+        run_case(ctx, self.0, &fam, up, &syms, split, stride);
     }
 }
